@@ -1,4 +1,5 @@
 import Crv.Repo
+import Crv.Cand
 import Crv.Driver.Util
 /-!
 Line-protocol driver for stream `repo` (repository state machine).
@@ -59,9 +60,60 @@ def statusName : Status → String
 def sigModeOf? : String → Option SigMode
   | "none" => some .none | "verify_log" => some .verifyLog | "verify" => some .verify | _ => none
 
+/-! `repo cand <crlIssuer> <aki> <alg r|e> <signerKey> <chains> <trusted>` — candidate selection and acceptance (C04).
+aki: `-` or `kid=<n|->;ser=<n|->;iss=<n|->`; chains: chains separated by `/`, certificates by `,` (or `-`);
+certificate: `key:subject:issuer:serial:ski|-:r|e:-|1|0`. Answer: `accepted key=<k> origin=<trusted|chainP>` | `rejected`. -/
+def optNat (s : String) : Option (Option Nat) := if s = "-" then some none else s.toNat?.map some
+def optInt (s : String) : Option (Option Int) := if s = "-" then some none else s.toInt?.map some
+def algOf? (s : String) : Option KeyAlg := if s = "r" then some .rsa else if s = "e" then some .ecdsa else none
+
+def parseCertA (s : String) : Option Cand.CertA :=
+  match s.splitOn ":" with
+  | [k, sub, iss, ser, ski, alg, ku] => do
+    let k ← k.toNat?
+    let sub ← sub.toNat?
+    let iss ← iss.toNat?
+    let ser ← ser.toInt?
+    let ski ← optNat ski
+    let alg ← algOf? alg
+    let ku ← (if ku = "-" then some none else if ku = "1" then some (some true) else if ku = "0" then some (some false) else none)
+    pure ⟨k, sub, iss, ser, ski, alg, ku⟩
+  | _ => none
+
+def parseCertList (s : String) : Option (List Cand.CertA) :=
+  if s = "-" then some [] else (s.splitOn ",").mapM parseCertA
+
+def parseAKI (s : String) : Option (Option Cand.AKI) :=
+  if s = "-" then some none else
+  match s.splitOn ";" with
+  | [a, b, c] =>
+    match a.splitOn "=", b.splitOn "=", c.splitOn "=" with
+    | ["kid", k], ["ser", sr], ["iss", i] => do
+      let k ← optNat k
+      let sr ← optInt sr
+      let i ← optNat i
+      pure (some ⟨k, sr, i⟩)
+    | _, _, _ => none
+  | _ => none
+
+def stepCand (ws : List String) : String :=
+  match ws with
+  | [iss, aki, alg, sk, chains, trusted] =>
+    match iss.toNat?, parseAKI aki, algOf? alg, sk.toNat?, (if chains = "-" then some [] else (chains.splitOn "/").mapM parseCertList),
+        parseCertList trusted with
+    | some i, some a, some al, some k, some chs, some tr =>
+      match Cand.verifyCRL (fun x => x == k) i a al chs tr with
+      | some av =>
+        let o := match av.origin with | .trusted => "trusted" | .chain p => s!"chain{p}"
+        s!"accepted key={av.cert.key} origin={o}"
+      | none => "rejected"
+    | _, _, _, _, _, _ => "bad-op"
+  | _ => "bad-op"
+
 def step (st : State) (ws : List String) : State × String :=
   let s := st.s
   match ws with
+  | "cand" :: rest => (st, stepCand rest)
   | ["cfg", sm, fm, strict, disk] =>
     match sigModeOf? sm, parseBool strict, parseBool disk with
     | some m, some b, some d =>
